@@ -359,6 +359,20 @@ func runC07(res *hx.Result, rng *hx.Rng, tier string, outdir string) {
 			add(c07job{entry: k7ParseIDL, sig: "v", t: wg.Scalar("v"), input: []byte(text), desc: "directed: recursive structure through " + member})
 		}
 	}
+	// directed: well-formed signatures nested hundreds to thousands of levels deep (lists, maps, tuples),
+	// parsed alone, carried by a dynamic value, and read by the signature reader: the cost per level must
+	// not depend on the depth
+	for _, d := range []int{300, 1000, 3000} {
+		for _, br := range [][3]string{{"[", "i", "]"}, {"{i", "i", "}"}, {"(", "i", ")"}} {
+			text := strings.Repeat(br[0], d) + br[1] + strings.Repeat(br[2], d)
+			add(c07job{entry: k7Parse, sig: "v", t: wg.Scalar("v"), input: []byte(text), desc: fmt.Sprintf("directed: signature nested %d deep", d), deadline: 20000})
+			var lp [4]byte
+			binary.LittleEndian.PutUint32(lp[:], uint32(len(text)))
+			dyn := append(append(lp[:], text...), 0, 0, 0, 0)
+			add(c07job{entry: k8Value, sig: "m", t: wg.Scalar("m"), input: dyn, desc: fmt.Sprintf("directed: dynamic value whose signature is nested %d deep", d), deadline: 20000})
+			add(c07job{entry: k8SigRead, sig: "m", t: wg.Scalar("m"), input: dyn, desc: fmt.Sprintf("directed: dynamic value whose signature is nested %d deep", d), deadline: 20000})
+		}
+	}
 	// resources that grow with the NESTING DEPTH of the input (found in review round 4):
 	// (a) signature.Parse recurses once per nesting level with no bound: the goroutine stack grows by more
 	//     than 500 bytes per level, the runtime's 1 GB limit is reached near 2,000,000 levels (a 2 MB
